@@ -1,9 +1,30 @@
-//! R-sim: transport-level simulator (real TLS / SSH / child-process transports vs scripted peer).
+//! R-sim: transport-level simulator.
+//!
+//! The three receive loops of bgpfu-netconf are tied to concrete types (`TlsStream<TcpStream>`,
+//! a russh channel, `ChildStdout`), so they run over real kernel objects — deterministically:
+//! client and scripted peer are two tasks of one `current_thread` runtime with a paused clock.
+//! The peer writes one chunk (= one TLS record / one SSH CHANNEL_DATA packet / one `write()` on
+//! the pipe) and then sleeps 1 ms of virtual time; tokio advances a paused clock only when no
+//! task is runnable and an epoll pass woke nobody, i.e. after the client has consumed the chunk.
+//! A heartbeat task (1 ms virtual sleep) feeds the worker's real-time watchdog: when the client
+//! spins — inside one poll, or by being re-polled for ever, which freezes the paused clock — the
+//! heartbeat stops and the worker reports the run as a spin and exits.
 
+use std::os::fd::{AsRawFd, FromRawFd, OwnedFd};
 use std::sync::atomic::AtomicU64;
-use std::sync::Mutex;
+use std::sync::{Arc, Mutex};
+use std::time::Duration;
 
-/// number of task polls observed by the runtime hooks (distinguishes yielding from non-yielding spins)
+use async_trait::async_trait;
+use netconf::message::rpc::operation::{Builder, Get};
+use netconf::Session;
+use tokio::io::{AsyncReadExt, AsyncWriteExt};
+use tokio::net::TcpListener;
+use tokio::sync::Notify;
+
+use crate::core::{beat, Ctx};
+
+/// kept for the driver's diagnostics
 pub static POLLS: AtomicU64 = AtomicU64::new(0);
 
 static SCENARIO: Mutex<String> = Mutex::new(String::new());
@@ -14,4 +35,655 @@ pub fn set_scenario(s: &str) {
 
 pub fn current_scenario() -> String {
     SCENARIO.lock().map(|s| s.clone()).unwrap_or_default()
+}
+
+pub const MARKER: &[u8] = b"]]>]]>";
+pub const NS: &str = "urn:ietf:params:xml:ns:netconf:base:1.0";
+pub const PKI: &str = "/verif/fixtures/pki";
+pub const SSH_PASSWORD: &str = "s3cr3t pass'\"";
+
+#[derive(Clone, Copy, Debug, PartialEq, Eq)]
+pub enum Kind {
+    Tls,
+    Ssh,
+    Local,
+}
+
+impl Kind {
+    pub fn name(self) -> &'static str {
+        match self {
+            Self::Tls => "tls",
+            Self::Ssh => "ssh",
+            Self::Local => "local",
+        }
+    }
+}
+
+#[derive(Clone, Copy, Debug, PartialEq, Eq)]
+pub enum CloseKind {
+    /// TLS close_notify followed by FIN / SSH channel EOF then close / close of the pipe (EOF on stdout)
+    Clean,
+    /// TCP FIN without TLS close_notify / SSH channel close without EOF / (local: same as Clean)
+    HalfClean,
+    /// TCP RST (SO_LINGER 0) / local: kill the child and close
+    Abort,
+    /// SSH only: channel EOF without close
+    SshEofOnly,
+    /// SSH only: the server's TCP connection is shut down (FIN) without any SSH-level message
+    SshDisconnect,
+}
+
+#[derive(Clone, Debug)]
+pub enum Step {
+    /// one unit of delivery
+    Chunk(Vec<u8>),
+    /// wait until the client has sent this many complete messages (hello = 1)
+    WaitClientMessages(usize),
+    /// stay silent for this long (virtual)
+    SleepMs(u64),
+    /// record the virtual instant at which reply k has been completely written
+    Mark(usize),
+    Close(CloseKind),
+}
+
+#[derive(Clone, Debug)]
+pub struct Scenario {
+    pub kind: Kind,
+    pub steps: Vec<Step>,
+    /// pipelined get requests issued after establishment
+    pub requests: usize,
+    /// one more request issued after all others resolved (C07: "every subsequent operation")
+    pub extra_request: bool,
+    pub label: String,
+    /// wrong password / untrusted setup (C20)
+    pub bad_credentials: bool,
+}
+
+#[derive(Clone, Debug, PartialEq, Eq)]
+pub enum Res {
+    Ok(String),
+    Err(String),
+    /// still pending 5 virtual seconds after it was awaited
+    Hang,
+}
+
+#[derive(Clone, Debug, Default)]
+pub struct Outcome {
+    pub establish: Option<Res>,
+    /// per request: result and the virtual time (ns) at which it resolved
+    pub results: Vec<Res>,
+    pub resolved_ns: Vec<u64>,
+    /// (reply index, virtual ns) of every Step::Mark
+    pub marks: Vec<(usize, u64)>,
+    pub extra: Option<Res>,
+    pub virt_ns: u64,
+    pub client_messages: Vec<String>,
+    pub harness_error: Option<String>,
+}
+
+pub fn hello_msg(caps: &[&str]) -> Vec<u8> {
+    crate::ssim::hello_with(caps, "42")
+}
+
+pub fn reply_msg(id: usize, len: usize) -> Vec<u8> {
+    // a reply of exactly `len` bytes (including the delimiter) when len is large enough
+    let head = format!("<rpc-reply message-id=\"{id}\" xmlns=\"{NS}\"><data><t xmlns=\"urn:x\">TAG-{id}-");
+    let tail = "</t></data></rpc-reply>]]>]]>";
+    let fill = len.saturating_sub(head.len() + tail.len());
+    format!("{head}{}{tail}", "x".repeat(fill)).into_bytes()
+}
+
+struct PeerShared {
+    inbuf: Vec<u8>,
+    messages: Vec<String>,
+}
+
+type Ps = Arc<(Mutex<PeerShared>, Notify)>;
+
+fn feed(ps: &Ps, data: &[u8]) {
+    if std::env::var_os("VERIF_DEBUG_FEED").is_some() {
+        eprintln!("feed {} bytes: {:?}", data.len(), String::from_utf8_lossy(&data[..data.len().min(80)]));
+    }
+    let mut g = ps.0.lock().unwrap();
+    g.inbuf.extend_from_slice(data);
+    while let Some(p) = crate::ssim::find(&g.inbuf, MARKER) {
+        let m: Vec<u8> = g.inbuf.drain(..p + MARKER.len()).collect();
+        g.messages.push(String::from_utf8_lossy(&m[..p]).into_owned());
+    }
+    drop(g);
+    ps.1.notify_waiters();
+}
+
+/// Wait until the client has sent `n` complete messages. For a short span of real time the wait
+/// keeps yielding, which keeps the paused clock from advancing while the kernel may still be
+/// delivering the client's bytes; after that it waits in virtual time, so that a client that will
+/// never send (because it is stuck, which is what the run is about) still sees its timeouts fire.
+async fn wait_messages(ps: &Ps, n: usize) -> Result<(), String> {
+    let t0 = std::time::Instant::now();
+    let mut spins = 0u32;
+    while t0.elapsed() < Duration::from_millis(20) {
+        if ps.0.lock().unwrap().messages.len() >= n {
+            return Ok(());
+        }
+        spins += 1;
+        if spins % 64 == 0 {
+            std::thread::sleep(Duration::from_micros(50));
+        }
+        tokio::task::yield_now().await;
+    }
+    loop {
+        let notified = ps.1.notified();
+        tokio::pin!(notified);
+        notified.as_mut().enable();
+        if ps.0.lock().unwrap().messages.len() >= n {
+            return Ok(());
+        }
+        notified.await;
+    }
+}
+
+/// The client code under test does not set TCP_NODELAY; with Nagle's algorithm the kernel would
+/// hold back its second small write for up to a delayed-ACK interval of *real* time, during which
+/// the paused clock races ahead. The harness therefore finds the client's socket among its own
+/// descriptors (local address == the accepted connection's peer address) and disables Nagle.
+fn set_client_nodelay(client_addr: std::net::SocketAddr) {
+    let Ok(dir) = std::fs::read_dir("/proc/self/fd") else { return };
+    for e in dir.flatten() {
+        let Ok(fd) = e.file_name().to_string_lossy().parse::<i32>() else { continue };
+        // SAFETY: getsockname/setsockopt on a descriptor of this process; failures are ignored
+        unsafe {
+            let mut ss: libc::sockaddr_in = std::mem::zeroed();
+            let mut len = std::mem::size_of::<libc::sockaddr_in>() as libc::socklen_t;
+            if libc::getsockname(fd, std::ptr::addr_of_mut!(ss).cast(), &mut len) != 0 || i32::from(ss.sin_family) != libc::AF_INET {
+                continue;
+            }
+            let port = u16::from_be(ss.sin_port);
+            let ip = std::net::Ipv4Addr::from(u32::from_be(ss.sin_addr.s_addr));
+            if std::net::SocketAddr::from((ip, port)) == client_addr {
+                let one: libc::c_int = 1;
+                libc::setsockopt(fd, libc::IPPROTO_TCP, libc::TCP_NODELAY, std::ptr::addr_of!(one).cast(), 4);
+                libc::setsockopt(fd, libc::IPPROTO_TCP, libc::TCP_QUICKACK, std::ptr::addr_of!(one).cast(), 4);
+            }
+        }
+    }
+}
+
+fn load_pem(name: &str) -> Vec<u8> {
+    std::fs::read(format!("{PKI}/{name}")).unwrap_or_else(|e| panic!("fixture {name}: {e}"))
+}
+
+pub fn client_pki() -> (rustls_pki_types::CertificateDer<'static>, rustls_pki_types::CertificateDer<'static>, rustls_pki_types::PrivateKeyDer<'static>) {
+    let one = |name: &str| match rustls_pemfile::read_one_from_slice(&load_pem(name)).expect("pem").expect("pem item").0 {
+        rustls_pemfile::Item::X509Certificate(c) => c,
+        _ => panic!("not a certificate"),
+    };
+    let key = match rustls_pemfile::read_one_from_slice(&load_pem("client.key")).expect("pem").expect("pem item").0 {
+        rustls_pemfile::Item::Sec1Key(k) => k.into(),
+        rustls_pemfile::Item::Pkcs8Key(k) => k.into(),
+        rustls_pemfile::Item::Pkcs1Key(k) => k.into(),
+        _ => panic!("not a key"),
+    };
+    (one("ca.crt"), one("client.crt"), key)
+}
+
+fn tls_acceptor() -> tokio_rustls::TlsAcceptor {
+    use tokio_rustls::rustls::{server::WebPkiClientVerifier, RootCertStore, ServerConfig};
+    let certs: Vec<_> = rustls_pemfile::certs(&mut &load_pem("server.crt")[..]).collect::<Result<_, _>>().expect("server cert");
+    let key = rustls_pemfile::private_key(&mut &load_pem("server.key")[..]).expect("key").expect("server key");
+    let mut roots = RootCertStore::empty();
+    for c in rustls_pemfile::certs(&mut &load_pem("ca.crt")[..]) {
+        roots.add(c.expect("ca")).expect("add ca");
+    }
+    let verifier = WebPkiClientVerifier::builder(Arc::new(roots)).build().expect("verifier");
+    let cfg = ServerConfig::builder().with_client_cert_verifier(verifier).with_single_cert(certs, key).expect("server config");
+    tokio_rustls::TlsAcceptor::from(Arc::new(cfg))
+}
+
+// ---------------------------------------------------------------------------------------------
+// SSH peer
+// ---------------------------------------------------------------------------------------------
+
+#[derive(Default)]
+struct SshShared {
+    chan: Option<(russh::ChannelId, russh::server::Handle)>,
+    subsystem: bool,
+}
+
+#[derive(Clone)]
+struct SshH {
+    ps: Ps,
+    sh: Arc<Mutex<SshShared>>,
+    keep: Arc<Mutex<Vec<russh::Channel<russh::server::Msg>>>>,
+}
+
+#[async_trait]
+impl russh::server::Handler for SshH {
+    type Error = anyhow::Error;
+    async fn auth_password(self, _user: &str, password: &str) -> Result<(Self, russh::server::Auth), Self::Error> {
+        Ok(if password == SSH_PASSWORD { (self, russh::server::Auth::Accept) } else { (self, russh::server::Auth::Reject { proceed_with_methods: None }) })
+    }
+    async fn channel_open_session(self, channel: russh::Channel<russh::server::Msg>, session: russh::server::Session) -> Result<(Self, bool, russh::server::Session), Self::Error> {
+        self.sh.lock().unwrap().chan = Some((channel.id(), session.handle()));
+        self.keep.lock().unwrap().push(channel);
+        Ok((self, true, session))
+    }
+    async fn subsystem_request(self, channel: russh::ChannelId, _name: &str, mut session: russh::server::Session) -> Result<(Self, russh::server::Session), Self::Error> {
+        session.channel_success(channel);
+        self.sh.lock().unwrap().subsystem = true;
+        self.ps.1.notify_waiters();
+        Ok((self, session))
+    }
+    async fn data(self, _channel: russh::ChannelId, data: &[u8], session: russh::server::Session) -> Result<(Self, russh::server::Session), Self::Error> {
+        feed(&self.ps, data);
+        Ok((self, session))
+    }
+}
+
+// ---------------------------------------------------------------------------------------------
+// local peer: fakecli hands its stdin/stdout to us
+// ---------------------------------------------------------------------------------------------
+
+pub fn fakecli_path() -> std::path::PathBuf {
+    std::env::current_exe().expect("exe").with_file_name("fakecli")
+}
+
+fn recv_fds(sock: &std::os::unix::net::UnixStream) -> std::io::Result<(OwnedFd, OwnedFd, i32)> {
+    // one message: payload = child's pid (4 bytes), ancillary = two descriptors
+    let mut payload = [0u8; 4];
+    let mut iov = libc::iovec { iov_base: payload.as_mut_ptr().cast(), iov_len: 4 };
+    let mut cbuf = [0u8; 64];
+    let mut msg: libc::msghdr = unsafe { std::mem::zeroed() };
+    msg.msg_iov = &mut iov;
+    msg.msg_iovlen = 1;
+    msg.msg_control = cbuf.as_mut_ptr().cast();
+    msg.msg_controllen = cbuf.len();
+    // SAFETY: msg points to valid buffers for the duration of the call
+    let n = unsafe { libc::recvmsg(sock.as_raw_fd(), &mut msg, 0) };
+    if n < 0 {
+        return Err(std::io::Error::last_os_error());
+    }
+    // SAFETY: walking the control buffer the kernel filled in
+    unsafe {
+        let cmsg = libc::CMSG_FIRSTHDR(&msg);
+        if cmsg.is_null() || (*cmsg).cmsg_type != libc::SCM_RIGHTS {
+            return Err(std::io::Error::other("no descriptors received from fakecli"));
+        }
+        let data = libc::CMSG_DATA(cmsg).cast::<i32>();
+        let a = std::ptr::read_unaligned(data);
+        let b = std::ptr::read_unaligned(data.add(1));
+        Ok((OwnedFd::from_raw_fd(a), OwnedFd::from_raw_fd(b), i32::from_le_bytes(payload)))
+    }
+}
+
+// ---------------------------------------------------------------------------------------------
+// run one scenario
+// ---------------------------------------------------------------------------------------------
+
+enum PeerIo {
+    Tls(tokio::io::WriteHalf<tokio_rustls::server::TlsStream<tokio::net::TcpStream>>, i32),
+    Ssh(russh::ChannelId, russh::server::Handle, i32),
+    Local(Option<tokio::net::unix::pipe::Sender>, i32),
+}
+
+async fn play(steps: Vec<Step>, mut io: PeerIo, ps: Ps, out: Arc<Mutex<Outcome>>, epoch: tokio::time::Instant) -> Result<(), String> {
+    for step in steps {
+        beat();
+        match step {
+            Step::Mark(k) => {
+                let t = tokio::time::Instant::now().duration_since(epoch).as_nanos() as u64;
+                out.lock().unwrap().marks.push((k, t));
+            }
+            Step::WaitClientMessages(n) => wait_messages(&ps, n).await?,
+            Step::SleepMs(ms) => tokio::time::sleep(Duration::from_millis(ms)).await,
+            Step::Chunk(data) => {
+                match &mut io {
+                    PeerIo::Tls(w, _) => {
+                        w.write_all(&data).await.map_err(|e| format!("peer write: {e}"))?;
+                        w.flush().await.map_err(|e| format!("peer flush: {e}"))?;
+                    }
+                    PeerIo::Ssh(chan, handle, _) => {
+                        handle.data(*chan, russh::CryptoVec::from_slice(&data)).await.map_err(|_| "peer ssh data failed".to_string())?;
+                    }
+                    PeerIo::Local(Some(w), _) => {
+                        w.write_all(&data).await.map_err(|e| format!("peer write: {e}"))?;
+                    }
+                    PeerIo::Local(None, _) => return Err("peer pipe already closed".into()),
+                }
+                // lock-step: the clock only moves once the client has consumed the chunk and blocked again
+                tokio::time::sleep(Duration::from_millis(1)).await;
+            }
+            Step::Close(kind) => {
+                match &mut io {
+                    PeerIo::Tls(w, fd) => match kind {
+                        CloseKind::Clean => {
+                            let _ = w.shutdown().await;
+                        }
+                        CloseKind::HalfClean => {
+                            // FIN without close_notify
+                            // SAFETY: fd is the accepted socket, still open (held by the split halves)
+                            unsafe {
+                                libc::shutdown(*fd, libc::SHUT_WR);
+                            }
+                        }
+                        _ => {
+                            let lg = libc::linger { l_onoff: 1, l_linger: 0 };
+                            // SAFETY: valid fd and option struct; SO_LINGER 0 + shutdown => RST on close
+                            unsafe {
+                                libc::setsockopt(*fd, libc::SOL_SOCKET, libc::SO_LINGER, std::ptr::addr_of!(lg).cast(), std::mem::size_of::<libc::linger>() as u32);
+                                libc::shutdown(*fd, libc::SHUT_RDWR);
+                            }
+                        }
+                    },
+                    PeerIo::Ssh(chan, handle, fd) => match kind {
+                        CloseKind::Clean => {
+                            let _ = handle.eof(*chan).await;
+                            let _ = handle.close(*chan).await;
+                        }
+                        CloseKind::HalfClean => {
+                            let _ = handle.close(*chan).await;
+                        }
+                        CloseKind::SshEofOnly => {
+                            let _ = handle.eof(*chan).await;
+                        }
+                        CloseKind::SshDisconnect => {
+                            // the server goes away without any SSH-level message: TCP FIN
+                            // SAFETY: fd of the accepted socket
+                            unsafe {
+                                libc::shutdown(*fd, libc::SHUT_WR);
+                            }
+                        }
+                        CloseKind::Abort => {
+                            let lg = libc::linger { l_onoff: 1, l_linger: 0 };
+                            // SAFETY: fd of the accepted socket; SO_LINGER 0 + shutdown => RST
+                            unsafe {
+                                libc::setsockopt(*fd, libc::SOL_SOCKET, libc::SO_LINGER, std::ptr::addr_of!(lg).cast(), std::mem::size_of::<libc::linger>() as u32);
+                                libc::shutdown(*fd, libc::SHUT_RDWR);
+                            }
+                        }
+                    },
+                    PeerIo::Local(w, pid) => {
+                        if kind == CloseKind::Abort && *pid > 0 {
+                            // SAFETY: our own child's child (fakecli), identified by the pid it sent
+                            unsafe {
+                                libc::kill(*pid, libc::SIGKILL);
+                            }
+                        }
+                        *w = None;
+                    }
+                }
+                tokio::time::sleep(Duration::from_millis(1)).await;
+            }
+        }
+    }
+    // keep the connection (if still open) alive and silent
+    tokio::time::sleep(Duration::from_secs(3600)).await;
+    drop(io);
+    Ok(())
+}
+
+fn res_of<T>(r: Result<Result<T, netconf::Error>, tokio::time::error::Elapsed>, show: impl Fn(T) -> String) -> Res {
+    match r {
+        Err(_) => Res::Hang,
+        Ok(Err(e)) => Res::Err(format!("{e:?}").chars().take(200).collect()),
+        Ok(Ok(v)) => Res::Ok(show(v)),
+    }
+}
+
+const WAIT: Duration = Duration::from_secs(5);
+
+static EPOCH: Mutex<Option<tokio::time::Instant>> = Mutex::new(None);
+
+async fn client_workload<T>(session: Result<Session<T>, tokio::time::error::Elapsed>, sc: &Scenario, out: &Arc<Mutex<Outcome>>)
+where
+    T: netconf::transport::Transport + 'static,
+    T::RecvHandle: 'static,
+    T::SendHandle: 'static,
+{
+    let mut s = match session {
+        Err(_) => {
+            out.lock().unwrap().establish = Some(Res::Hang);
+            return;
+        }
+        Ok(s) => s,
+    };
+    out.lock().unwrap().establish = Some(Res::Ok(s.context().session_id().to_string()));
+    // every reply future is awaited in a task of its own; the instant at which it resolves is recorded
+    let epoch = *EPOCH.lock().unwrap();
+    let mut tasks = Vec::new();
+    for k in 0..sc.requests {
+        {
+            let mut o = out.lock().unwrap();
+            o.results.push(Res::Hang);
+            o.resolved_ns.push(0);
+        }
+        let set = {
+            let out = out.clone();
+            move |r: Res| {
+                let mut o = out.lock().unwrap();
+                o.results[k] = r;
+                o.resolved_ns[k] = epoch.map_or(0, |e| tokio::time::Instant::now().duration_since(e).as_nanos() as u64);
+            }
+        };
+        match tokio::time::timeout(WAIT, s.rpc::<Get, _>(|b| b.finish())).await {
+            Ok(Ok(f)) => tasks.push(tokio::spawn(async move {
+                let r = res_of(tokio::time::timeout(WAIT, f).await, |v| v.chars().take(60).collect());
+                set(r);
+            })),
+            Ok(Err(e)) => set(Res::Err(format!("send: {e:?}").chars().take(200).collect())),
+            Err(_) => set(Res::Hang),
+        }
+    }
+    for t in tasks {
+        let _ = t.await;
+    }
+    if sc.extra_request {
+        let r = match tokio::time::timeout(WAIT, s.rpc::<Get, _>(|b| b.finish())).await {
+            Ok(Ok(f)) => res_of(tokio::time::timeout(WAIT, f).await, |v| v.chars().take(60).collect()),
+            Ok(Err(e)) => Res::Err(format!("send: {e:?}").chars().take(200).collect()),
+            Err(_) => Res::Hang,
+        };
+        out.lock().unwrap().extra = Some(r);
+    }
+}
+
+pub fn run_scenario(ctx: &mut Ctx, sc: &Scenario) -> Outcome {
+    set_scenario(&format!("{}/{}", sc.kind.name(), sc.label));
+    let seed = ctx.pick(1 << 30) as u64;
+    let rt = crate::asim::runtime(seed);
+    let out: Arc<Mutex<Outcome>> = Arc::default();
+    let ps: Ps = Arc::new((Mutex::new(PeerShared { inbuf: Vec::new(), messages: Vec::new() }), Notify::new()));
+    let sc2 = sc.clone();
+    let (out2, ps2) = (out.clone(), ps.clone());
+    rt.block_on(async move {
+        let epoch = tokio::time::Instant::now();
+        *EPOCH.lock().unwrap() = Some(epoch);
+        let heartbeat = tokio::spawn(async {
+            loop {
+                beat();
+                tokio::time::sleep(Duration::from_millis(1)).await;
+            }
+        });
+        let sc = sc2;
+        let steps = sc.steps.clone();
+        let fail = |out: &Arc<Mutex<Outcome>>, e: String| out.lock().unwrap().harness_error = Some(e);
+        match sc.kind {
+            Kind::Tls => {
+                let listener = TcpListener::bind("127.0.0.1:0").await.expect("bind");
+                let addr = listener.local_addr().expect("addr");
+                let acceptor = tls_acceptor();
+                let ps3 = ps2.clone();
+                let out3 = out2.clone();
+                let peer = tokio::spawn(async move {
+                    let (tcp, client_addr) = listener.accept().await.map_err(|e| e.to_string())?;
+                    tcp.set_nodelay(true).ok();
+                    set_client_nodelay(client_addr);
+                    let fd = tcp.as_raw_fd();
+                    let tls = match acceptor.accept(tcp).await {
+                        Ok(t) => t,
+                        Err(e) => {
+                            out3.lock().unwrap().client_messages.push(format!("<tls handshake refused by peer: {e}>"));
+                            return Ok(());
+                        }
+                    };
+                    let (mut r, w) = tokio::io::split(tls);
+                    let ps4 = ps3.clone();
+                    let out4 = out3.clone();
+                    let reader = tokio::spawn(async move {
+                        let mut buf = [0u8; 4096];
+                        loop {
+                            match r.read(&mut buf).await {
+                                Ok(0) => break,
+                                Err(e) => {
+                                    if std::env::var_os("VERIF_LIVE").is_some() {
+                                        out4.lock().unwrap().client_messages.push(format!("<peer reader error: {e}>"));
+                                    }
+                                    break;
+                                }
+                                Ok(n) => feed(&ps4, &buf[..n]),
+                            }
+                        }
+                    });
+                    let r = play(steps, PeerIo::Tls(w, fd), ps3, out3.clone(), epoch).await;
+                    reader.abort();
+                    r
+                });
+                let (ca, cert, key) = client_pki();
+                let (cert, key) = if sc.bad_credentials {
+                    // present the server's certificate chain with the client's key: handshake must fail
+                    (ca.clone(), key)
+                } else {
+                    (cert, key)
+                };
+                let session = tokio::time::timeout(WAIT, Session::tls(addr, "localhost", ca, cert, key)).await;
+                match session {
+                    Ok(Err(e)) => out2.lock().unwrap().establish = Some(Res::Err(format!("{e:?}").chars().take(200).collect())),
+                    Ok(Ok(s)) => client_workload(Ok(s), &sc, &out2).await,
+                    Err(e) => client_workload::<netconf::transport::Tls>(Err(e), &sc, &out2).await,
+                }
+                peer.abort();
+                if let Ok(Err(e)) = peer.await {
+                    if !e.contains("peer write") && !e.contains("peer flush") {
+                        fail(&out2, e);
+                    }
+                }
+            }
+            Kind::Ssh => {
+                let listener = TcpListener::bind("127.0.0.1:0").await.expect("bind");
+                let addr = listener.local_addr().expect("addr");
+                let mut cfg = russh::server::Config::default();
+                cfg.keys.push(russh_keys::key::KeyPair::generate_ed25519().expect("host key"));
+                cfg.auth_rejection_time = Duration::from_millis(10);
+                cfg.auth_rejection_time_initial = Some(Duration::from_millis(0));
+                let cfg = Arc::new(cfg);
+                let h = SshH { ps: ps2.clone(), sh: Arc::default(), keep: Arc::default() };
+                let h2 = h.clone();
+                let ps3 = ps2.clone();
+                let out3 = out2.clone();
+                let peer = tokio::spawn(async move {
+                    let (tcp, client_addr) = listener.accept().await.map_err(|e| e.to_string())?;
+                    tcp.set_nodelay(true).ok();
+                    set_client_nodelay(client_addr);
+                    let fd = tcp.as_raw_fd();
+                    let running = russh::server::run_stream(cfg, tcp, h2.clone()).await.map_err(|e| e.to_string())?;
+                    let pump = tokio::spawn(running);
+                    // wait for the netconf subsystem
+                    let (chan, handle) = loop {
+                        let notified = ps3.1.notified();
+                        tokio::pin!(notified);
+                        notified.as_mut().enable();
+                        {
+                            let g = h2.sh.lock().unwrap();
+                            if g.subsystem {
+                                if let Some(c) = g.chan.clone() {
+                                    break c;
+                                }
+                            }
+                        }
+                        notified.await;
+                    };
+                    let r = play(steps, PeerIo::Ssh(chan, handle, fd), ps3, out3.clone(), epoch).await;
+                    pump.abort();
+                    r
+                });
+                let password = if sc.bad_credentials { "wrong password" } else { SSH_PASSWORD };
+                let session = tokio::time::timeout(WAIT, Session::ssh(addr, "operator".to_string(), password.parse().expect("infallible"))).await;
+                match session {
+                    Ok(Err(e)) => out2.lock().unwrap().establish = Some(Res::Err(format!("{e:?}").chars().take(200).collect())),
+                    Ok(Ok(s)) => client_workload(Ok(s), &sc, &out2).await,
+                    Err(e) => client_workload::<netconf::transport::Ssh>(Err(e), &sc, &out2).await,
+                }
+                peer.abort();
+                if let Ok(Err(e)) = peer.await {
+                    if !e.contains("peer ssh data failed") {
+                        fail(&out2, e);
+                    }
+                }
+            }
+            Kind::Local => {
+                // the helper connects back to this listener and passes its stdin/stdout
+                let dir = std::env::temp_dir().join(format!("bgpfu-dst-{}", std::process::id()));
+                let _ = std::fs::create_dir_all(&dir);
+                let path = dir.join("fakecli.sock");
+                let _ = std::fs::remove_file(&path);
+                let listener = std::os::unix::net::UnixListener::bind(&path).expect("bind unix");
+                std::env::set_var("VERIF_FAKECLI_SOCK", &path);
+                let ps3 = ps2.clone();
+                let out3 = out2.clone();
+                let cli = fakecli_path();
+                let session = tokio::time::timeout(WAIT, Session::verif_junos_local(&cli));
+                // the child is spawned synchronously inside the first poll of `session`; accept afterwards
+                let accept = async move {
+                    // poll in virtual time until the helper has connected (it does so within microseconds of real time)
+                    listener.set_nonblocking(true).ok();
+                    let sock = loop {
+                        match listener.accept() {
+                            Ok((s, _)) => break s,
+                            Err(e) if e.kind() == std::io::ErrorKind::WouldBlock => {
+                                std::thread::sleep(Duration::from_micros(200));
+                                tokio::task::yield_now().await;
+                            }
+                            Err(e) => return Err(e.to_string()),
+                        }
+                    };
+                    sock.set_nonblocking(false).ok();
+                    let (stdin_r, stdout_w, pid) = recv_fds(&sock).map_err(|e| e.to_string())?;
+                    let mut rx = tokio::net::unix::pipe::Receiver::from_owned_fd(stdin_r).map_err(|e| e.to_string())?;
+                    let tx = tokio::net::unix::pipe::Sender::from_owned_fd(stdout_w).map_err(|e| e.to_string())?;
+                    let ps4 = ps3.clone();
+                    let reader = tokio::spawn(async move {
+                        let mut buf = [0u8; 4096];
+                        loop {
+                            match rx.read(&mut buf).await {
+                                Ok(0) | Err(_) => break,
+                                Ok(n) => feed(&ps4, &buf[..n]),
+                            }
+                        }
+                    });
+                    let r = play(steps, PeerIo::Local(Some(tx), pid), ps3, out3.clone(), epoch).await;
+                    reader.abort();
+                    r
+                };
+                let peer = tokio::spawn(accept);
+                match session.await {
+                    Ok(Err(e)) => out2.lock().unwrap().establish = Some(Res::Err(format!("{e:?}").chars().take(200).collect())),
+                    Ok(Ok(s)) => client_workload(Ok(s), &sc, &out2).await,
+                    Err(e) => client_workload::<netconf::transport::JunosLocal>(Err(e), &sc, &out2).await,
+                }
+                peer.abort();
+                if let Ok(Err(e)) = peer.await {
+                    if !e.contains("peer write") {
+                        fail(&out2, e);
+                    }
+                }
+                let _ = std::fs::remove_file(&path);
+            }
+        }
+        heartbeat.abort();
+        out2.lock().unwrap().virt_ns = tokio::time::Instant::now().duration_since(epoch).as_nanos() as u64;
+    });
+    drop(rt);
+    let mut o = out.lock().unwrap().clone();
+    o.client_messages.extend(ps.0.lock().unwrap().messages.clone());
+    set_scenario("");
+    o
 }
